@@ -482,6 +482,10 @@ CORPUS = [
     ["dev S", "r.every 0 0 1 0 0 0 1"],
     ["dev O", "r.map 3 3 1 0 0 1 2 2", "r.reduce 5 5 1 0 0 0", "r.foreach 2 2 1 0 0 1"],
     ["dev S", "new 3 3 1 2 3", "slice 3 6 1 0", "map 6 7 1 1 1", "new 0 0", "concat 0 3 4", "concat 3 0 5", "resize 3 0", "get 3"],
+    # concat with an empty operand must give a FRESH array (seeded change C23-m2 returned a shallow copy of the
+    # non-empty operand: filling the result then changed that operand)
+    ["dev S", "new 3 3 1 2 3", "new 0 0", "concat 3 0 5", "fill 5 9", "get 3", "get 5", "concat 0 3 4", "fill 4 7", "get 3", "get 4"],
+    ["dev O", "new 1 4 5 6 7 8", "new 2 0", "concat 1 2 6", "rev 6 6", "get 1", "concat 2 1 7", "fill 7 0", "get 1"],
     # F60 (findIndex with several matches)
     ["dev S", "new 0 6 5 1 2 1 9 1", "find 0 4 1"],
     ["dev S", "r.find 0 10 1 0 0 0 6"],
